@@ -24,6 +24,11 @@ pub struct SockOut {
     pub reads: Vec<u64>,
     pub unconfirmed: u64,
     pub server_exited: bool,
+    pub elapsed_ms: u64,
+    pub chunks_sent: usize,
+    pub timeline: Vec<(&'static str, u64, u64)>,
+    pub t_connect_us: u64,
+    pub steps: Vec<String>,
 }
 
 /// Sends `stream` cut at `cuts`, each chunk only after the previous one was
@@ -35,6 +40,10 @@ pub const SENTINEL: u32 = 0x5e47_1e1;
 /// (data the server has written may still be in flight when the server is already idle again).
 pub fn run_socket_stream(srv: &Server, stream: &[u8], cuts: &[usize], expect_close: bool) -> Result<SockOut, String> {
     let mut c = Cli::connect(srv.port)?;
+    let t_start = Instant::now();
+    let t_connect_us = crate::sock::now_us();
+    let mut chunks_sent = 0;
+    let mut steps: Vec<String> = vec![];
     let mut prev = 0;
     let mut bounds = cuts.to_vec();
     bounds.push(stream.len());
@@ -43,7 +52,12 @@ pub fn run_socket_stream(srv: &Server, stream: &[u8], cuts: &[usize], expect_clo
             continue;
         }
         let ok = c.send_chunk(&stream[prev..b]);
+        chunks_sent += 1;
         prev = b;
+        let o = conn_log().get(c.port);
+        if steps.len() < 12 {
+            steps.push(format!("chunk..{} ok={} end={:?} exited={} read_total={} sent={} serial={} floor={} key={:#x} at+{}us", b, ok, c.end, o.exited, o.read_total, c.sent, o.serial, o.floor, c.port, t_start.elapsed().as_micros()));
+        }
         if !ok && c.end != End::Open {
             break;
         }
@@ -75,7 +89,7 @@ pub fn run_socket_stream(srv: &Server, stream: &[u8], cuts: &[usize], expect_clo
         }
     }
     let obs = conn_log().get(c.port);
-    Ok(SockOut { rx: c.rx.clone(), end: c.end, frames: obs.frames, reads: obs.reads, unconfirmed: c.unconfirmed_splits, server_exited: obs.exited })
+    Ok(SockOut { rx: c.rx.clone(), end: c.end, frames: obs.frames, reads: obs.reads, unconfirmed: c.unconfirmed_splits, server_exited: obs.exited, elapsed_ms: t_start.elapsed().as_millis() as u64, chunks_sent, timeline: obs.timeline.clone(), t_connect_us, steps })
 }
 
 /// one request/response exchange on an open observer connection
@@ -825,9 +839,11 @@ pub fn run_sock_frames(ctx: &Ctx) -> i32 {
                                     } else {
                                         "final store content differs".into()
                                     };
+                                    let mut d = describe(cs);
+                                    d["observed"] = json!({"reads": out.reads, "frames": out.frames, "unconfirmed_chunks": out.unconfirmed, "elapsed_ms": out.elapsed_ms, "chunks_sent": out.chunks_sent, "t_connect_us": out.t_connect_us, "steps": out.steps, "timeline": format!("{:?}", out.timeline), "server_port": srv.port, "end": format!("{:?}", out.end), "server_exited": out.server_exited, "rx_hex": wire::hex(&out.rx[..out.rx.len().min(400)]), "base_rx_hex": wire::hex(&b.rx[..b.rx.len().min(400)])});
                                     shared.lock().unwrap().violation(
                                         Viol::new(&["C09", "C13"], "segmentation-dependent", format!("socket: cut set {:?} vs unsplit stream: {}", &cs[..cs.len().min(8)], what)),
-                                        describe(cs),
+                                        d,
                                     );
                                     break;
                                 }
